@@ -310,6 +310,10 @@ def _callee_handler(ctx, prm, *operands):
 prims.BASE_HANDLERS["callee"] = _callee_handler
 
 
+class TargetRaised(Exception):
+    """The real function raised while being traced on an instance that satisfies its precondition."""
+
+
 class _native_mode:
     def __enter__(self):
         self.prev = prims.MODE.symbolic
@@ -532,6 +536,21 @@ def verify_instance(contract: Contract, inst: Instance, *, seed=0, tier="quick")
     unpatch_all()
     try:
         _verify(contract, inst, res, seed, tier)
+    except TargetRaised as e:
+        # not a checker problem: the postcondition "returns normally" fails; confirm natively
+        res.obligations += 1
+        entry = {"obligation": "ensures.returns_normally_inside_precondition", "kind": "bool", "reason": "function-raised", "detail": {"exception": str(e)[:500]}}
+        try:
+            owner, attr, target = contract.resolve()
+            fn = contract.wrap(target) if contract.wrap else target
+            args, kwargs = inst.make(np.random.default_rng(seed))
+            with _native_mode():
+                fn(*args, **kwargs)
+            entry["native_confirmed"] = False
+        except Exception as e2:
+            entry["native_confirmed"] = True
+            entry["native_exception"] = f"{type(e2).__name__}: {str(e2)[:300]}"
+        res.failed.append(entry)
     except interp.Unsupported as e:
         res.error = f"unsupported: {e}"
     except Exception:
@@ -570,7 +589,12 @@ def _verify(contract, inst, res, seed, tier):
     def body(*arrs):
         a, k = rebuild(leaves, treedef, arr_idx, arrs)
         PENDING.clear()
-        out = fn(*a, **k)
+        try:
+            out = fn(*a, **k)
+        except (interp.Unsupported, jax.errors.TracerArrayConversionError, jax.errors.ConcretizationTypeError):
+            raise
+        except Exception as e:  # the function under verification itself raised on an input inside its precondition
+            raise TargetRaised(f"{type(e).__name__}: {e}") from e
         ol, ot = jax.tree_util.tree_flatten(out)
         out_box["tree"] = ot
         out_box["static"] = [None if _is_arraylike(l) else l for l in ol]
@@ -1154,6 +1178,8 @@ def native_clauses(contract: Contract, inst: Instance, seed, inputs=None):
 
 def confirm_native(contract: Contract, inst: Instance, failure: dict, seed, npoints=8):
     """Run the real, unpatched function on concrete inputs and evaluate the failed clause natively."""
+    if failure["obligation"] == "ensures.returns_normally_inside_precondition":
+        return {"violated": bool(failure.get("native_confirmed")), "native_exception": failure.get("native_exception"), "input_seed": seed, "note": "the real function raises on the instance's native example (inputs: Instance.make(default_rng(seed)))"}
     if not failure["obligation"].startswith("ensures."):
         return {"violated": False, "note": "call-site / kernel precondition: no native clause to evaluate"}
     cname = _clause_of(failure["obligation"])
